@@ -16,6 +16,11 @@ CHECKS = {
         text="Exploration, exhaustive over all single-edge shapes: every node kind in every child slot of every parent kind (optional slots absent/present, lists of length 0-3), each with and without a replacing visitor on Enter and on Exit; random deep trees; parsed and optimised trees of generated programs; and a differential between Compile(src, Patch(41->42)) and Compile(src with 42) with the literal at drawn positions.",
         note="Trusted: reflection over the exported ast struct fields (declaration order = source order), the harness tree builder; patch-e2e compares the library with itself (no reference model).",
         ref="4/C10"),
+    "C11": dict(
+        technique="bounded exhaustive enumeration (operator pairs/triples, token sequences up to length 3-5) + rapid random trees and token sequences; round trip print(minimal parens)->parse and differential against an independently written reference recursive-descent parser",
+        text="Exploration, exhaustive for small shapes: every operator over every pair of level-1 constructs (all 23 binary, 4 unary operators, conditional, ?:, 8 postfix forms, call, builtin, array, map), class representatives at a third level, all token sequences up to length 3 over the 50-token alphabet (4-5 over class representatives); random trees to depth 8 and mutated grammatical token sequences. Tree case: minimal-parenthesis print parses back to the same tree, redundant parentheses/whitespace do not change it, and each printed pair is necessary per the reference. Token case: reference accepts with T => parser returns T, reference rejects => parser errors.",
+        note="Trusted: the reference parser harness/core/refparse.go (explicit grammar levels from the documented precedence table), the printer; they validate each other. Lexical exclusions (counted): literal directly followed by a postfix, internal spacing of `not in`, `?` directly before `.`.",
+        ref="4/C11"),
     "C12": dict(
         technique="property-based testing (rapid) with round-trip oracles: write value with drawn spelling -> lex/parse -> same value; writer's own line/column count for positions; native go-fuzz target in the thorough tier",
         text="Exploration: generated strings, integers, floats and token layouts are written in every supported spelling and must lex/parse back to exactly the same value / position. Round-trip and position oracles need no model of the lexer. Bounded by case counts; absence is not established.",
